@@ -21,7 +21,8 @@ CoversAgree(cv) == \A i \in 1..Len(cv) : Covers(cv[i][1], cv[i][2]) = cv[i][3]
 
 TrReset == /\ l <= TLen /\ Row.ev = "Reset" /\ l' = l + 1 /\ cur' = NoRow /\ UNCHANGED vars
            /\ Assert(CoversAgree(Row.covers), "spec and netip disagree on prefix containment")
-           /\ T' = {} /\ routes' = Row.routes
+           /\ T' = {} /\ routes' = RoutePool(Row.rk)
+           /\ Assert(Len(RoutePool(Row.rk)) = Row.nroutes, "route pool of the trace differs from the spec's")
 TrAdd == IsEvent("Add") /\ T' = T \cup {Row.r} /\ UNCHANGED routes
 TrDel == IsEvent("Del") /\ T' = T \ {Row.r} /\ UNCHANGED routes
 TrDelAll == IsEvent("DelAll") /\ T' = {x \in T : x.c # Row.c} /\ UNCHANGED routes
@@ -40,7 +41,7 @@ C16_TblTable == SeqToSet(cur.obs.table) = T
 (* every recorded verdict is the RFC 6811 verdict over T *)
 C16_TblValidate ==
   cur.v => /\ Len(cur.obs.val) = Len(routes)
-           /\ \A i \in 1..Len(routes) : cur.obs.val[i] = Validate(T, routes[i])
+           /\ \A i \in 1..Len(routes) : cur.obs.val[i] = VerdictCode(Validate(T, routes[i]))
            /\ NoteIf(\E i \in 1..Len(routes) : Covering(T, routes[i]) # {}, T)
 
 (* the policy condition reaches the same verdict: exactly the statement of that verdict matched *)
